@@ -613,6 +613,8 @@ func checkC03(c *Ctx) {
 	c3NilError(c)
 	c3Equals(c, byType)
 	c3NilPlaceholder(c)
+	c.Rule("R3.9", "float payloads are unpacked as bit patterns: Float64frombits/Float32frombits of the Integer slot, no float-to-float conversion on the way", 2)
+	c3FloatBits(c, "R3.9")
 }
 
 // c3NilPlaceholder: a Stringer / error payload is delivered as whatever its own String()/Error() returns; the
@@ -1528,4 +1530,97 @@ func ptrHelperShape(h *ssa.Function) bool {
 		return false
 	}
 	return nilOK && valOK
+}
+
+// c3FloatBits: float payloads travel as bit patterns. With the field's type fixed to Float64Type / Float32Type (and
+// the complex types, which travel in the Interface slot, left to R3.1), every path of Field.AddTo - helpers explored
+// inline - hands the encoder math.Float64frombits / Float32frombits of the Integer slot with no conversion between
+// floating-point types in between: float32→float64→float32 preserves every value but not every bit pattern (it
+// quiets signalling NaNs), and the property promises floats bit for bit.
+func c3FloatBits(c *Ctx, rule string) {
+	ftNamed := c.Named(CorePath, "FieldType")
+	fn := c.Method(CorePath, "Field", "AddTo")
+	if !c.Anchor(rule, "zapcore.Field.AddTo", fn != nil && ftNamed != nil && len(fn.Params) == 2) {
+		return
+	}
+	rn := fn.Params[0].Name()
+	isFloat := func(t types.Type) bool {
+		b, ok := types.Unalias(t).Underlying().(*types.Basic)
+		return ok && b.Info()&types.IsFloat != 0
+	}
+	n := 0
+	for _, k := range c.ConstsOfType(CorePath, ftNamed) {
+		if k.Name() != "Float64Type" && k.Name() != "Float32Type" {
+			continue
+		}
+		kv, _ := ConstObjInt(k)
+		wantCall := map[string]string{"Float64Type": "math.Float64frombits", "Float32Type": "math.Float32frombits"}[k.Name()]
+		var chain func(st *ConcState, v ssa.Value, d int) string
+		chain = func(st *ConcState, v ssa.Value, d int) string {
+			if d > 10 {
+				return "…"
+			}
+			for i := 0; i < 12; i++ {
+				if ct, ok := v.(*ssa.ChangeType); ok {
+					v = ct.X
+					continue
+				}
+				nx := st.Step(v)
+				if nx == nil {
+					break
+				}
+				v = nx
+			}
+			switch x := v.(type) {
+			case *ssa.Convert:
+				in := chain(st, x.X, d+1)
+				if isFloat(x.Type()) && isFloat(x.X.Type()) {
+					return "floatconv(" + in + ")"
+				}
+				return "conv(" + in + ")"
+			case *ssa.Call:
+				if f := CalleeFunc(x); f != nil && len(x.Call.Args) == 1 {
+					return f.FullName() + "(" + chain(st, x.Call.Args[0], d+1) + ")"
+				}
+			case *ssa.UnOp, *ssa.Field:
+				ds := st.Desc(v)
+				if ds == rn+".Integer" {
+					return "Integer"
+				}
+				return ds
+			}
+			return st.Desc(v)
+		}
+		seqs, trunc := ConcPaths(fn, ConcCfg{
+			Conc: func(d string) (int64, bool) {
+				if d == rn+".Type" {
+					return kv, true
+				}
+				return 0, false
+			},
+			Event: func(in ssa.Instruction, st *ConcState) string {
+				x, ok := in.(*ssa.Call)
+				if !ok || !x.Call.IsInvoke() || !strings.HasPrefix(x.Call.Method.Name(), "Add") || len(x.Call.Args) != 2 {
+					return ""
+				}
+				return x.Call.Method.Name() + ":" + chain(st, x.Call.Args[1], 0)
+			},
+		})
+		if trunc || len(seqs) == 0 {
+			c.Und(rule, fn.String(), "float-bits/"+k.Name(), fn.Pos(), "path exploration incomplete")
+			continue
+		}
+		n++
+		var bad []string
+		for _, sq := range seqs {
+			ok := strings.Contains(sq, wantCall+"(conv(Integer))") || strings.Contains(sq, wantCall+"(Integer)")
+			if !ok || strings.Contains(sq, "floatconv(") || strings.Contains(sq, " ; ") {
+				bad = append(bad, sq)
+			}
+		}
+		c.Check(len(bad) == 0, rule, fn.String(), "float-bits/"+k.Name(), fn.Pos(), "for a %s field every path hands the encoder %s of the Integer slot, with no conversion between floating-point types on the way (bit patterns, not just values): %v", k.Name(), wantCall, bad)
+	}
+	if n != 2 {
+		c.Bad(rule, fn.String(), "float-bits/count", fn.Pos(), "expected Float64Type and Float32Type, decided %d", n)
+	}
 }
